@@ -528,7 +528,14 @@ def impl_qref(case):
         SchemaV1(**d.model_dump())             # ... and it must survive a dump / reload as well
         r2 = Routine.from_qref(d, B)
         state["reexported"] = d
-        return {"a": walk_routine(r, flags), "b": walk_routine(r2, flags)}
+
+        def wiring(n):
+            # the strings the exporter wrote for connections and parameter links, node by node
+            return {"name": n["name"],
+                    "connections": [[c["source"], c["target"]] for c in n.get("connections", [])],
+                    "links": [[l["source"], list(l["targets"])] for l in n.get("linked_params", [])],
+                    "children": [wiring(c) for c in n.get("children", [])]}
+        return {"a": walk_routine(r, flags), "b": walk_routine(r2, flags), "wiring": wiring(d.model_dump()["program"])}
 
     def compiled():
         c = compile_routine(doc)
